@@ -166,16 +166,19 @@ def drive(ctx, pts, gss):
     Kb = float(phonopy.units.Kb)
     if abs(Kb / 8.617333262e-5 - 1.0) > 1e-5:
         ctx.violation("efe:boltzmann-constant", "phonopy.units.Kb is not the Boltzmann constant in eV/K", dict(Kb=Kb))
-    evs = dict(pt=[], sr=[], iv=[])
+    evs = dict(pt=[], sr=[], iv=[], sc=[])
     raws = {}
     eid = 0
-    kp, kg = (12, 16) if ctx.quick else (2, 2)
+    kp, kg = (12, 16) if ctx.quick else (3, 5)
 
     def guarded(kind, what, fn):
         try:
             ev, raw = fn()
         except Exception as ex:  # an exception from the class where the specification expects a result
             import traceback
+            tb = traceback.extract_tb(ex.__traceback__)
+            if not tb or "/phonopy/" not in tb[-1].filename:
+                raise                # raised by the harness itself: machinery failure, not a finding
             ctx.violation("efe:exception:" + kind, "ElectronFreeEnergy raised where the specification defines a result",
                           dict(case=what, error=repr(ex), tb=traceback.format_exc()[-1500:]))
             return
@@ -201,6 +204,15 @@ def drive(ctx, pts, gss):
             eid += 1
             guarded("iv", dict(case=gs[1], transform=tr, u=u, T=T), lambda: drv.iv_event(eid, gs, tr, u, T, Kb))
             ctx.count(("iv", json.dumps(gs[1], sort_keys=True), tr["kd"], tr["d"], u, T))
+    # phonopy-vasp-efe's table builder on pairs of cases ("volumes")
+    sel = pick(gss, kg * 4, ctx.seed, 2)
+    for i in range(0, len(sel) - 1, 2):
+        u = US[(i // 2 + ctx.seed) % 2]
+        grid = GRIDS[(i // 2 + ctx.seed) % len(GRIDS)]
+        eid += 1
+        pair = [sel[i], sel[i + 1]]
+        guarded("sc", dict(cases=[g[1] for g in pair], u=u, grid=grid), lambda: drv.sc_event(eid, pair, u, grid, Kb))
+        ctx.count(("sc", json.dumps([g[1] for g in pair], sort_keys=True), u, grid))
     ctx.traces += sum(len(v) for v in evs.values())
     return evs, raws
 
@@ -208,7 +220,8 @@ def drive(ctx, pts, gss):
 TR_INV = dict(
     pt=["ConformsExpected", "ImplConservation", "ImplOutsideBand", "ImplEnergy", "ImplMu", "ImplEntropy", "ImplFreeEnergy",
         "ImplOccupation", "ImplOccShape"],
-    sr=["ConformsGround", "ConformsBandFlag", "ImplGrid", "ImplConservation", "ImplOutsideBand", "ImplEnergy", "ImplEntropy",
+    sc=["ImplGrid", "ImplScriptRows", "ImplScriptReference", "ImplScriptVolumes"],
+    sr=["ConformsGround", "ConformsBandFlag", "ImplGrid", "ImplConservation", "ImplOutsideBand", "ImplEnergy", "ImplEntropy", "ImplMu",
         "ImplFreeEnergy", "ImplApi", "ImplEntropyNonneg", "ImplBelowGround", "ImplEnergyAboveGround", "ImplDerivative",
         "ImplDecreasing", "ImplZeroT"],
     iv=["ConformsTransform", "ImplInvariance"])
@@ -230,6 +243,10 @@ WHAT = dict(
     ImplDerivative="dF/dT is not -S",
     ImplDecreasing="the free energy increases with temperature",
     ImplZeroT="at T = 0 the chemical potential is not between HOMO and LUMO / not at the partially filled level",
+    ImplScriptRows="phonopy-vasp-efe: a table entry is not energy(sigma->0) - F_el(T=0) + F_el(T)",
+    ImplScriptReference="phonopy-vasp-efe with tmin > 0: the table is referred to F_el(tmin) instead of F_el(T=0) "
+                        "(documented formula: energy(sigma->0) - energy(T=0) + energy(T) - entropy(T) T)",
+    ImplScriptVolumes="phonopy-vasp-efe: volumes / sigma->0 energies of e-v.dat or of the fe-v.dat header are not the parsed ones",
     ImplInvariance="the result changes under a transformation that leaves the physics unchanged")
 
 
@@ -269,11 +286,16 @@ def binding_demo(ctx, events):
     """A corrupted event must be rejected by the judgement that owns the corrupted field."""
     import copy
     demos = []
-    ev = copy.deepcopy(next(e for e in events["pt"] if all(d <= 1000 for d in e["dv"])))
+    cand = [next(iter(events["pt"]), None),
+            next((e for e in events["sr"] if e["xg"][0] == 0 and e["rows"] and e["rows"][0][0]), None),
+            next((e for e in events["sr"] if len(e["xts"]) > 1), None)]
+    if any(c is None for c in cand):
+        if ctx.violations:
+            return          # the implementation under test already left the specification; nothing to demonstrate on
+        raise tlcmod.MachineryError("x08: no event to build the binding demonstrations on")
+    ev, ev2, ev3 = (copy.deepcopy(c) for c in cand)
     ev["xE"] = [ev["xE"][0] + 1, ev["xE"][1]]
-    ev2 = copy.deepcopy(next(e for e in events["sr"] if e["xg"][0] == 0 and e["rows"][0][0]))
     ev2["muq"] += 3000000
-    ev3 = copy.deepcopy(next(e for e in events["sr"] if len(e["xts"]) > 1))
     ev3["xts"] = ev3["xts"][:-1]
     ev3["rows"] = ev3["rows"][:-1]
     for kind, e, expect in (("pt", ev, "ConformsExpected"), ("sr", ev2, "ImplZeroT"), ("sr", ev3, "ImplGrid")):
@@ -300,7 +322,7 @@ def run(ctx):
         "(an occupation is resolved to ulp(mu)/(4 kT) only): tolerance 8 D ulp(|e|max)/1e-10 on the count",
         "whether the conserving mu lies inside [min, max] of the eigenvalues is decided exactly by TLC at rational points and "
         "at T = 0, and by the harness-evaluated count at the band edges for the other temperatures",
-        "reading vasprun.xml / fe-v.dat and the phonopy-qha fit are not part of X08 (C17, C20)",
+        "phonopy-vasp-efe is driven through get_fe_ev_lines with parse_vasprunxml replaced by a stand-in object (fractional k-weights as VASP writes them); reading vasprun.xml / fe-v.dat and the phonopy-qha fit are not part of X08 (C17, C20)",
     ]
     t0 = time.time()
     pts, gss = model(ctx)
@@ -316,7 +338,7 @@ def run(ctx):
     if dbg:
         print("drive", ctx.extra["drive_wall_s"], ctx.extra["events"], flush=True)
     summary = {}
-    for kind in ("pt", "sr", "iv"):
+    for kind in ("pt", "sr", "iv", "sc"):
         t0 = time.time()
         summary[kind] = validate(ctx, kind, events[kind], raws)
         if dbg:
@@ -326,10 +348,19 @@ def run(ctx):
     worst = {}
     for kind, col in (("pt", None),):
         for e in events[kind]:
+            if e["dv"][0] > 1000:
+                continue            # mu outside the eigenvalue range: judged under ImplOutsideBand only
             for j, d in enumerate(e["dv"]):
                 if d < 10 ** 9:
                     worst[j] = max(worst.get(j, 0), d)
     ctx.extra["pt_worst_deviation_in_milli_tolerance(cons,en,mu,ts,fe,occ)"] = [worst.get(j, 0) for j in range(6)]
+    rows = [(e, i, r) for e in events["sr"] for i, r in enumerate(e["rows"])]
+    ctx.extra["series_rows"] = dict(
+        total=len(rows), in_band=sum(1 for _, _, r in rows if r[0]), at_T0=sum(1 for e, i, _ in rows if e["xts"][i] == 0),
+        at_T0_in_band=sum(1 for e, i, r in rows if e["xts"][i] == 0 and r[0]),
+        two_level_closed_form_mu=sum(1 for _, _, r in rows if r[0] and r[11] >= 0),
+        worst_T0_count_error_in_milli_tolerance=max([r[1] for e, i, r in rows if e["xts"][i] == 0 and r[0]] + [0]))
+    ctx.extra["pt_points"] = dict(total=len(events["pt"]), mu_inside_eigenvalue_range=sum(1 for e in events["pt"] if e["dv"][0] <= 1000))
     if events["pt"]:
         ctx.sample(dict(point=raws[events["pt"][0]["xid"]]))
     if events["sr"]:
